@@ -45,6 +45,9 @@ def is_basic_index(idx: Node) -> Optional[bool]:
     return None
 
 
+IDENTITY_OPS = ("Class", "Func", "Closure", "Ext", "Module")
+
+
 class ExprMixin:
 
     def val(self, expr, fr, st) -> Node:
@@ -165,12 +168,63 @@ class ExprMixin:
             return vals[0]
         return self.mk("BoolOp", tuple(vals), "And" if is_and else "Or", site)
 
+    # ---- branch-selected identities (dispatch tables):  Phi(c, A, B) is X  ==  boolean formula over c
+    def _identity_leaf(self, n: Node) -> bool:
+        return n.op in IDENTITY_OPS or (n.op == "Const" and (n.attr is None or isinstance(n.attr, (str, bool, int))))
+
+    def _identity_tree(self, n: Node, depth=0) -> bool:
+        if n.op == "Phi" and depth < 8:
+            return self._identity_tree(n.args[1], depth + 1) and self._identity_tree(n.args[2], depth + 1)
+        return self._identity_leaf(n)
+
+    def _identity_equal(self, a: Node, b: Node) -> bool:
+        if a.op == "Const" or b.op == "Const":
+            return a.op == b.op and a.attr == b.attr and type(a.attr) is type(b.attr)
+        return a is b or (a.op == b.op and a.attr is b.attr)
+
+    def _not(self, f: Node, site) -> Node:
+        if f.op == "Const" and isinstance(f.attr, bool):
+            return self.const(not f.attr, site)
+        if f.op == "UnaryOp" and f.attr == "Not":
+            return f.args[0]
+        return self.mk("UnaryOp", (f,), "Not", site)
+
+    def _bool_of_phi(self, n: Node, leaf_truth, site) -> Node:
+        if n.op != "Phi":
+            return self.const(bool(leaf_truth(n)), site)
+        c = n.args[0]
+        a = self._bool_of_phi(n.args[1], leaf_truth, site)
+        b = self._bool_of_phi(n.args[2], leaf_truth, site)
+        ca = a.attr if a.op == "Const" else None
+        cb = b.attr if b.op == "Const" else None
+        if ca is not None and cb is not None:
+            if ca == cb:
+                return self.const(ca, site)
+            return c if ca else self._not(c, site)
+        if ca is True:
+            return self.mk("BoolOp", (c, b), "Or", site)
+        if ca is False:
+            return self.mk("BoolOp", (self._not(c, site), b), "And", site)
+        if cb is True:
+            return self.mk("BoolOp", (self._not(c, site), a), "Or", site)
+        if cb is False:
+            return self.mk("BoolOp", (c, a), "And", site)
+        return self.mk("BoolOp", (self.mk("BoolOp", (c, a), "And", site),
+                                  self.mk("BoolOp", (self._not(c, site), b), "And", site)), "Or", site)
+
     def compare(self, opname, l: Node, r: Node, site) -> Node:
         if l.op == "Const" and r.op == "Const" and opname in PYCMP:
             try:
                 return self.const(bool(PYCMP[opname](l.attr, r.attr)), site)
             except Exception:
                 pass
+        if opname in ("Is", "IsNot", "Eq", "NotEq"):
+            for a, b in ((l, r), (r, l)):
+                if a.op == "Phi" and self._identity_leaf(b) and self._identity_tree(a):
+                    f = self._bool_of_phi(a, lambda x: self._identity_equal(x, b), site)
+                    if opname in ("IsNot", "NotEq"):
+                        f = self._not(f, site)
+                    return f
         if opname in ("Is", "IsNot"):
             for a, b in ((l, r), (r, l)):
                 if b.op == "Const" and b.attr is None:
@@ -321,6 +375,13 @@ class ExprMixin:
                     args.extend([kn, vn_])
         return self.mk("Dict", args, tuple(keys), site)
 
+    def _dict_key_slots(self, d: Node):
+        out, i = [], 0
+        for kd in d.attr:
+            out.append((kd, i))
+            i += 2 if kd[0] == "n" else 1
+        return out
+
     def dict_get(self, d: Node, key):
         """value for constant key in a Dict node (last wins) or None"""
         i = 0
@@ -376,6 +437,11 @@ class ExprMixin:
                 parts.append(x)
         return self.fstr(parts, site)
 
+    def ev_NamedExpr(self, e, fr, st):
+        v = self.eval(e.value, fr, st)
+        self.assign(e.target, v, fr, st)
+        return v
+
     def ev_Yield(self, e, fr, st):
         # only reached when a generator body is analysed on request (Interp.analyse_generators)
         site = self.site_of(e, fr)
@@ -429,6 +495,54 @@ class ExprMixin:
             if not any(k[0] in ("**", "n") for k in base.attr):
                 self.effect("keyerror", site, st, fr, key=idx.attr)
                 return self.unknown(f"missing-key:{idx.attr!r}", site)
+        if base.op == "Dict" and idx.op in IDENTITY_OPS and any(k[0] == "n" for k in base.attr) and \
+                not any(k[0] == "**" for k in base.attr):
+            hit, i = None, 0
+            for kd in base.attr:
+                if kd[0] == "n":
+                    if base.args[i] is idx or (base.args[i].op == idx.op and base.args[i].attr is idx.attr):
+                        hit = base.args[i + 1]
+                    i += 2
+                else:
+                    i += 1
+            if hit is not None:
+                return hit
+            if all(k[0] != "n" or base.args[j].op in IDENTITY_OPS for k, j in self._dict_key_slots(base)):
+                # no such key: the look-up raises KeyError, this path ends here
+                self.effect("raise", site, st, fr, node=idx, text=f"KeyError({self.g.show(idx, 1)})")
+                raise PathEnd()
+        if base.op == "Dict" and (idx.op == "Phi" or (idx.op == "Const" and idx.attr is None)) and _depth < 8 and \
+                any(k[0] == "n" for k in base.attr) and not any(k[0] == "**" for k in base.attr):
+            if idx.op == "Const":
+                if not any(k[0] == "k" and k[1] is None for k in base.attr):
+                    self.effect("raise", site, st, fr, node=idx, text="KeyError(None)")
+                    raise PathEnd()
+            else:
+                # table[key] with a branch-selected key: one look-up per alternative; an alternative without an
+                # entry raises and contributes no value
+                c, a, b = idx.args
+                va = vb = None
+                base_pc = st.pc
+                s1, s2 = st.copy(), st.copy()
+                s1.pc = base_pc + ((c, True),)
+                s2.pc = base_pc + ((c, False),)
+                try:
+                    va = self.subscript(base_id, a, s1, fr, site, _depth + 1)
+                except PathEnd:
+                    pass
+                try:
+                    vb = self.subscript(base_id, b, s2, fr, site, _depth + 1)
+                except PathEnd:
+                    pass
+                if va is None and vb is None:
+                    raise PathEnd()
+                if va is None:
+                    st.pc = s2.pc
+                    return vb
+                if vb is None:
+                    st.pc = s1.pc
+                    return va
+                return self.phi(c, va, vb, site)
         if base.op == "Const" and idx.op == "Const" and isinstance(base.attr, (str, tuple)):
             try:
                 return self.const(base.attr[idx.attr], site)
@@ -489,8 +603,13 @@ class ExprMixin:
 
     def known_items(self, it: Node, limit=16):
         """explicit element list of a small literal sequence, else None"""
+        depth_ok = True
         if it.op in ("Tuple", "List") and not any(a.op == "Starred" for a in it.args):
             return list(it.args) if len(it.args) <= limit else None
+        if it.op in ("Dict", "DictKeys") and depth_ok:
+            d = it if it.op == "Dict" else it.args[0]
+            if d.op == "Dict" and not any(k[0] == "**" for k in d.attr) and len(d.attr) <= limit:
+                return [self.const(kd[1]) if kd[0] == "k" else d.args[i] for kd, i in self._dict_key_slots(d)]
         if it.op == "Zip":
             cols = [self.known_items(a, limit) for a in it.args]
             if all(c is not None for c in cols) and cols:
@@ -553,6 +672,24 @@ class ExprMixin:
         saved = dict(st.locals)
         try:
             items = self.known_items(it)
+            if items is not None and kind in ("list", "gen") and gen.ifs:
+                # filters that do not fold: keep (condition, element) per item
+                pairs, symbolic = [], False
+                for x in items:
+                    self.assign(gen.target, x, fr, st)
+                    cs = [self.val(cnd, fr, st) for cnd in gen.ifs]
+                    ts = [self.truth(c_) for c_ in cs]
+                    if any(t is False for t in ts):
+                        continue
+                    rest = [c_ for c_, t in zip(cs, ts) if t is None]
+                    if rest:
+                        symbolic = True
+                    cn = self.const(True) if not rest else (rest[0] if len(rest) == 1 else
+                                                           self.mk("BoolOp", tuple(rest), "And", site))
+                    pairs.append((cn, self.eval(e.elt, fr, st)))
+                if symbolic:
+                    flat = [x for pr_ in pairs for x in pr_]
+                    return self.mk("CondList", tuple(flat), kind, site)
             if items is not None and kind in ("list", "gen", "dict"):
                 out, keys = [], []
                 ok = True
